@@ -82,6 +82,20 @@ def gen_cases(rng, tier):
       rng.shuffle(S)
     cases.append({"kind": "diff", "model": m, "S": S, "exclude": rng.random() < 0.5, "route": route, "set_class": cls,
                   "style": (rng.randrange(1, 1 << 30) if i % 2 else 0)})
+  # an EAM species whose label holds a hyphen ('X-Y': legal as an [EAM-Embed] / [EAM-Density] key) next to the pair
+  # between the species X and Y: two different things that read alike
+  for i in range(6 if tier == "quick" else 40):
+    m = spec.gen_eam_model(rng, "eam", "potable", nspecies=3, target=rng.choice(["setfl", "DL_POLY_EAM", "excel_eam"]), underspecified=0,
+                           grids={"nr": 4, "nrho": 3}, with_forms=False)
+    x_, y_, w_ = m["all_species"]
+    hy = "%s-%s" % (x_, y_)
+    m["pair"] = [e for e in m["pair"] if w_ not in e[:2]]
+    if not any(set(e[:2]) == {x_, y_} for e in m["pair"]):
+      m["pair"].append([x_, y_, {"k": "form", "name": "constant", "p": [2.5]}])
+    m = spec.rename_species(m, {w_: hy})
+    m.setdefault("species", {}).setdefault(hy, {}).update({"atomic_number": 5, "atomic_mass": 10.8})
+    S = [[hy], [hy, x_], [x_, y_], [hy, x_, y_]][i % 4]
+    cases.append({"kind": "diff", "model": m, "S": S, "exclude": bool(i % 2), "route": ["api", "main"][(i // 2) % 2], "set_class": "hyphenated_species_label", "style": 0})
   nv = 40 if tier == "quick" else 500
   for i in range(nv):
     m = gen_model(rng, i)
